@@ -1,5 +1,6 @@
 // Small utilities shared by the simulator: PRNG, hashing, string helpers.
 #pragma once
+#include <algorithm>
 #include <cstdint>
 #include <cstdio>
 #include <cstring>
@@ -136,7 +137,10 @@ struct Counters {
     return it == c.end() ? 0 : it->second;
   }
   void merge(const Counters &o) {
-    for (auto &kv : o.c) c[kv.first] += kv.second;
+    for (auto &kv : o.c) {
+      if (kv.first.compare(0, 9, "sched_max") == 0) c[kv.first] = std::max(c[kv.first], kv.second);  // maxima are not summed
+      else c[kv.first] += kv.second;
+    }
   }
 };
 
